@@ -405,6 +405,15 @@ def check_reject(case):
             def TbGen(_: h.HasNoParams) -> h.Module:
                 return mk_tb("TbG", ports=2)
             tb = TbGen()
+    elif kind in ("valid-then-second-port", "valid-then-second-port-via-sim"):
+        # a testbench that WAS valid when it was first looked at (is_tb, a Sim built on it) and has a second port now: it is
+        # judged as it stands
+        tb = mk_tb("TbLate", ports=1)
+        if d.is_tb(tb) is not True:
+            return (f"reject.{kind}.harness", "the one-port testbench is not accepted", w)
+        if kind.endswith("via-sim"):
+            early = d.Sim(tb=tb, attrs=[d.Op()])
+        tb.add(h.Port(), name="VDD")
     else:
         tb = h.R(r=1)
     try:
@@ -509,7 +518,8 @@ def run(ctx):
                     bound="<=6 attributes, nesting <=2", key_of=repr)
     ctx.run_bounded("testbench-interface", [("reject", k) for k in ("two-ports", "bus-port", "no-port", "primitive", "scalar+bundle-port",
                                                                    "bundle-port-only", "scalar+bundle-port,elaborated",
-                                                                   "generator-two-ports")],
+                                                                   "generator-two-ports", "valid-then-second-port",
+                                                                   "valid-then-second-port-via-sim")],
                     check_reject, rule="testbenches without exactly one scalar port are rejected, also when the extra "
                                        "ports only appear through elaboration (bundle ports)", bound="8 programs",
                     key_of=repr)
